@@ -25,14 +25,18 @@ How the obligations are read off the facts (so that they hold for every spelling
   * "the guard handed to the test closure" is the argument of the CALLBACK effect, not a particular statement.
   * "constructed only in build" is over construction sites with private constructor helpers made transparent
     (C16_helpers.construction_sites); guard values are compared as inline_deep normal forms.
-  * "copy_app returns the owning TempDir" is the success payload (mk_unwrap) of copy_app.
+  * "copy_app returns the owning TempDir" is the success payload (mk_unwrap) of copy_app: the tempdir() value sits in a
+    field of AppDir that owns a TempDir by value (enum payload / struct field, also as Option / Box of it).
+  * "the guard exists before `docker run`" is judged in the frame that issues the command (C16_helpers.guard_frames):
+    start_container, or the private function that makes the guard, runs the command and hands the guard back by value;
+    the unwind drop is required in every frame that issues a command while owning the guard.
 """
 import os
 from .lib.cmdmodel import command_model, from_command_fns
 from .lib.effects import Effects, vocab_lookup
 from .lib.paths import strip
 from .lib.value import vstr, walk, canon
-from .C16_helpers import construction_sites, param_fields, top_call
+from .C16_helpers import construction_sites, guard_frames, held, owning_fields, param_fields, top_call
 
 TDR = 'libcnb_test::test_runner::TemporaryDockerResources'
 CC = 'libcnb_test::container_context::ContainerContext'
@@ -177,28 +181,33 @@ def run(ctx, rep):
     rep.check(ok, 'R2', 'resources/names-used', w(bi), 'pack builds exactly the image / volumes named by the guard', 'pack is not given the guard\'s image/volume names')
     sc = prog.find_one(r"^libcnb_test::test_context::TestContext::<'_>::start_container$")
     rep.analysed(sc)
-    cc_made, _ = construction_sites(prog, sl, CC)
-    here = [m for m in cc_made if m.fn is sc and m.kind in ('stmt', 'call')]
+    cc_made, cc_helpers = construction_sites(prog, sl, CC)
     sc_may = effects(sc, 'may')
     runs = [e for e in sc_may if e.kind == 'RUN']
     docker_runs = [e for e in runs if any(x[0] == 'call' and x[1] == DRUN_NEW for x in walk(sl.inline_deep(e.path, keep=(DRUN_NEW, RID))))]
-
-    def exists_at(m, c):
-        """the value made at m exists when call c (a terminator) executes: statements precede the terminator of their block"""
-        return sc.dominates(m.bb, c.bb) and (m.kind == 'stmt' or m.bb != c.bb)
-    ok = len(here) == 1 and bool(docker_runs) and all(exists_at(here[0], top_call(e)) for e in runs)
+    # the guard exists when a command is issued, in whichever frame that happens: start_container itself, or the private
+    # function making the guard when the acquire phase (build the command, make the guard, `docker run`) is split off and
+    # the guard handed back by value — there the ordering is judged on that function's own commands
+    fr_ok, fr_why, frames = guard_frames(prog, CC, cc_helpers, sc, lambda fn: [e for e in effects(fn, 'may') if e.kind == 'RUN'])
+    ok = fr_ok and bool(docker_runs) and sum(len(o) for _, _, o in frames) >= len(runs)
     rep.check(ok, 'R2', 'container/guard-before-run', top_call(runs[0]).where() if runs else w(sc), 'ContainerContext is constructed before `docker run` is issued',
-              'the container guard is created after (or not on every path before) `docker run`: a failing/panicking start leaks the detached container')
+              'the container guard is created after (or not on every path before) `docker run`: a failing/panicking start leaks the detached container', fr_why)
     if ok:
+        for fn, _, _ in frames[1:]:
+            rep.analysed(fn)
         norm = lambda v: strip(sl.inline_deep(strip(v), keep=(RID,)))
-        gv = here[0].value(sl, keep=(RID,))
+        gv = frames[0][1].value(sl, keep=(RID,))
         nm = norm(dict(gv[3]).get('container_name', ('unknown',))) if gv[0] == 'agg' else ('unknown',)
         news = [e for e in sc_may if e.kind == 'DRUN_NEW']
         same = bool(news) and all(len(e.args) > 1 and norm(e.args[1]) == nm for e in news) and nm[0] == 'call' and nm[1] == RID
         rep.check(same, 'R2', 'container/same-name', w(sc), 'guard and `docker run --name` use the same generated name', 'the guard does not hold the name given to docker run')
-        owners = {i for i, l in enumerate(sc.locals) if l['ty'] == CC} | {here[0].dest()}
-        ud = [b for b in sc.blocks if b['cleanup'] and b['t']['t'] == 'drop' and len(b['t']['p']) == 1 and b['t']['p'][0] in owners]
-        rep.check(bool(ud), 'R2', 'container/unwind-drop', w(sc), 'container guard dropped on the unwind path', 'no unwind-path drop of the container guard')
+        # every frame that issues a command while it owns the guard drops the guard when that command unwinds
+        owning = [(fn, m) for fn, m, o in frames if o]
+        ud_ok = bool(owning)
+        for fn, m in owning:
+            owners = {i for i, l in enumerate(fn.locals) if l['ty'] == CC} | {m.dest()}
+            ud_ok = ud_ok and any(b['cleanup'] and b['t']['t'] == 'drop' and len(b['t']['p']) == 1 and b['t']['p'][0] in owners for b in fn.blocks)
+        rep.check(ud_ok, 'R2', 'container/unwind-drop', w(sc), 'container guard dropped on the unwind path', 'no unwind-path drop of the container guard')
     # ---- R3 --------------------------------------------------------------------------------------------
     bad = []
     n = 0
@@ -246,20 +255,25 @@ def run(ctx, rep):
     tys = [l['ty'] for l in bi.locals]
     rep.check('tempfile::TempDir' in tys and 'libcnb_test::app::AppDir' in tys, 'R5', 'locals', w(bi), 'build_internal owns a TempDir (buildpacks) and an AppDir', 'temp dir locals: %s' % [t for t in tys if 'Temp' in t or 'AppDir' in t])
     ad = prog.adt('libcnb_test::app::AppDir')
-    tv = [v for v in ad['variants'] if v['name'] == 'Temporary']
-    rep.check(bool(tv) and tv[0]['fields'][0]['ty'] == 'tempfile::TempDir', 'R5', 'AppDir', '%s:%s' % (ad['file'], ad['line']), 'AppDir::Temporary owns a TempDir', 'AppDir::Temporary does not own a TempDir')
+    # AppDir owns the temporary copy: a field that holds a TempDir by value (directly, or as Option / Box of one — all drop
+    # the directory with the AppDir), whatever the shape of the type (enum variant payload / struct field)
+    own = owning_fields(ad, 'tempfile::TempDir')
+    rep.check(bool(own), 'R5', 'AppDir', '%s:%s' % (ad['file'], ad['line']), 'AppDir owns a TempDir (%s)' % ', '.join('%s.%s' % o for o in sorted(own)),
+              'AppDir::Temporary does not own a TempDir')
     ca = prog.fn('libcnb_test::app::copy_app')
     rep.analysed(ca)
-    # success payload of copy_app, whatever the spelling (combinator chain / `?` / match): the TempDir made by tempdir(),
-    # as AppDir::Temporary — written as the variant literal or through the From<TempDir> conversion (transparent as a value)
+    # success payload of copy_app, whatever the spelling (combinator chain / `?` / match): the TempDir made by tempdir() sits
+    # in an owning field of the AppDir — written as a literal, through a private constructor (inlined) or through the
+    # From<TempDir> conversion (transparent as a value)
     pay = sl.inline_deep(sl.mk_unwrap(sl.local(ca, 0), 1))
     is_tmp = lambda v: strip(v)[0] == 'call' and (strip(v)[1] or '').startswith('tempfile::') and 'libcnb_test::app::AppDir' in ca.ret
-    owning_variant = lambda v, inner: v[0] == 'agg' and v[1] == 'libcnb_test::app::AppDir' and v[2] == 'Temporary' and inner(dict(v[3]).get('0', ('unknown',)))
-    if owning_variant(strip(pay), is_tmp):
+    owning_value = lambda v, inner: v[0] == 'agg' and v[1] == 'libcnb_test::app::AppDir' and \
+        any((v[2], n) in own and inner(held(fv)) for n, fv in v[3])
+    if owning_value(strip(pay), is_tmp):
         ok = True
     elif is_tmp(pay):
         conv = prog.fns.get('<libcnb_test::app::AppDir as std::convert::From<tempfile::TempDir>>::from')
-        ok = conv is not None and owning_variant(strip(sl.local(conv, 0)), lambda x: strip(x)[0] == 'param' and strip(x)[1] == conv.path and strip(x)[2] == 0)
+        ok = conv is not None and owning_value(strip(sl.inline_deep(sl.local(conv, 0))), lambda x: strip(x)[0] == 'param' and strip(x)[1] == conv.path and strip(x)[2] == 0)
     else:
         ok = False
     rep.check(ok, 'R5', 'copy_app', w(ca), 'the app copy is returned as the owning TempDir', 'copy_app does not return the owning TempDir')
